@@ -12,7 +12,7 @@ DUTs (one per case, chosen by the case rng):
 
 Workload: a session of 30-70 UTMI receive packets, each built by a directed-random generator: good DATA0/1/2/MDATA packets
 (lengths 0,1,2,3,7,8,9,63,64,65 and random up to 70, position-tagged / random / PID-look-alike payloads), single- and
-multi-bit corruption in payload or either CRC byte, swapped / non-inverted / zero CRC, PID only, PID + 1 byte, 2 bytes that
+multi-bit corruption in payload or either CRC byte, swapped / non-inverted / one-byte-late CRC, PID only, PID + 1 byte, 2 bytes that
 are not the CRC of the empty payload, truncated and over-long packets, "nested" packets (a valid packet whose payload ends
 in a valid CRC, i.e. a prefix that already looks complete), non-data PIDs followed by a body that is a valid data packet,
 damaged PID check nibbles, rx_active pulses without any byte; rx_valid gap patterns none / fixed / random / one long stall,
@@ -37,6 +37,16 @@ latency is assumed beyond "before the next packet starts".
 Not judged: behaviour when a new packet starts before the receive-to-transmit minimum delay of the configured speed has
 elapsed (the receiver is then still in its inter-packet state; a USB bus cannot deliver a new SYNC that early), rx_valid
 outside rx_active, rx_error, crc_mismatch for packets with fewer than two bytes after the PID, low speed.
+(Probe, not part of the verdict: with idles shorter than that minimum the receiver is still waiting for `tx_allowed`, misses the
+PID of the next packet and may take a payload byte for a PID; not reachable on a bus that obeys the inter-packet delays.)
+
+Validation (tools/mut.py, 93 repository tests green unless noted): caught — SECOND_BYTE / FIRST_BYTE without return to IDLE,
+device CRC advancing on rx_active, ready_for_response after a mismatch, rx_pid_toggle from active_pid[2], packet_id from
+rx_data, last_word_crc updated outside rx_valid, mismatch suppressed when the last byte is 0, IRRELEVANT left on rx_valid low,
+compare on 15 bits, PID check on 3 bits, no PID check, is_data on 1 bit, rx_complete gated by stream.valid, complete
+pulsed together with mismatch.  Killed by the repository tests (and also caught): compare last_byte_crc, emit from
+data_pipeline[8:], missing last_word_crc / last_byte_crc capture in the first two states, level ready_for_response.
+Not a violation (held, as it should): active_pid written on every PID byte.
 """
 from rv.sim import Bench, Registry
 from rv.usb2host import UTMIHost, init_device_signals
